@@ -23,8 +23,16 @@ def _run_task(args):
     modname, hname, cfg, tier, seed = args
     try:
         mod = importlib.import_module(modname)
-        r = mod.run(hname, cfg, tier, seed)
-        return dict(r)
+        r = dict(mod.run(hname, cfg, tier, seed))
+        # auto-escalate the bit-vector width when the interval analysis could not exclude wrap-around
+        for w in (96, 128):
+            if not any("overflow of the" in i for i in r.get("inconclusive", [])):
+                break
+            if cfg.get("W", 0) >= w:
+                continue
+            cfg = dict(cfg, W=w)
+            r = dict(mod.run(hname, cfg, tier, seed))
+        return r
     except BaseException as ex:  # noqa: BLE001
         return dict(property=modname, harness=hname, cfg=cfg, errors=[f"task crashed: {type(ex).__name__}: {ex}\n"
                                                                        f"{traceback.format_exc()[-1500:]}"],
@@ -111,8 +119,9 @@ def check(prop, tier, seed, jobs):
             obligations=sum(r["obligations"] for r in results) + pre_info.get("obligations", 0),
             discharged=sum(r["discharged"] for r in results) + pre_info.get("discharged", 0),
             configs=len(results), functions_encoded=funcs,
-            queries=dict(steering=sum(r["int_checks"] for r in results), deciding=sum(r["bv_checks"] for r in results)
-                         + pre_info.get("queries", 0), unknown=len([i for i in inconclusive if i.startswith("solver")])),
+            queries=dict(steering=sum(r["int_checks"] for r in results), deciding=sum(r["bv_checks"] + r.get("int_decides", 0) for r in results)
+                         + pre_info.get("queries", 0), deciding_bv=sum(r["bv_checks"] for r in results),
+                         deciding_int=sum(r.get("int_decides", 0) for r in results), unknown=len([i for i in inconclusive if i.startswith("solver")])),
             solver_s=round(sum(r["solver_s"] for r in results) + pre_info.get("solver_s", 0.0), 2),
             paths_total=sum(r["paths"] for r in results),
             unrealisable_counterexamples=sum(r.get("unrealisable", 0) for r in results),
